@@ -181,15 +181,21 @@ def _gen_tlc_traces(tier, out_dir, sd):
 
 
 def spec_level(tier):
-    """Exhaustive TLC run of the broker design spec (if present)."""
-    cfg = "Broker_MC_%s.cfg" % tier
+    """Exhaustive TLC runs of the broker design spec."""
     if os.environ.get("VERIF_SKIP_MC"):
         return None
-    from vlib import SPEC
-    if not os.path.exists(os.path.join(SPEC, "Broker_MC.tla")) or not os.path.exists(os.path.join(SPEC, cfg)):
-        return None
-    return tlc_model_check("broker_" + tier, "Broker_MC.tla", cfg, workers=8,
-                           timeout=600 if tier == "quick" else 3000, xmx="12g")
+    cfgs = ["quick"] if tier == "quick" else ["thorough", "th_ordered", "th_skew", "th_scalein"]
+    runs = [tlc_model_check("broker_" + c, "Broker_MC.tla", "Broker_MC_%s.cfg" % c, workers=8,
+                            timeout=900 if tier == "quick" else 6000, xmx="12g") for c in cfgs]
+    res = dict(runs[0])
+    res["name"] = "Broker_MC[" + ",".join(cfgs) + "]"
+    res["ok"] = all(r["ok"] for r in runs)
+    res["wall_s"] = round(sum(r["wall_s"] for r in runs), 1)
+    res["states"] = sum(r.get("states", 0) for r in runs)
+    res["transitions"] = sum(r.get("transitions", 0) for r in runs)
+    res["violated"] = next((r.get("violated") for r in runs if r.get("violated")), None)
+    res["out_tail"] = "\n".join(r.get("out_tail", "") for r in runs if not r["ok"])
+    return res
 
 
 def run_family(tier):
